@@ -13,7 +13,28 @@ EXTENDS NetDispatch, Json, IOUtils, FiniteSets
 V == JsonDeserialize(IOEnv.TRACE_FILE)
 VARIABLE tid
 OK == <<"ok", "">>
+\* kind "write": the first transmission of write(frame, traffic_direct) for a single-frame message and whether the call
+\* waited for a NETWORK_ACK (the harness never sends one: waiting shows as a route_timeout spent)
+WriteClause(v) ==
+  LET h == Hdr(0, v.to, v.id, v.type, 0)
+      want == WriteOutcome(v.cfg, h, v.msg, v.direct, v.prefix, v.suffix)
+      got == [i \in 1..Len(v.sent) |-> [phys |-> v.sent[i].phys, data |-> v.sent[i].data, noack |-> v.sent[i].noack]] IN
+  IF v.exc # "none" THEN <<"C05.ReturnTrue", "write() raised " \o v.exc>>
+  ELSE IF (v.queued = 1) # want.queued THEN <<"C05.Delivered", "loop-back write: the frame must go straight into the own queue (and only then)">>
+  ELSE IF Len(got) = 0 /\ Len(want.tx) = 0 THEN OK
+  ELSE IF Len(got) = 0 THEN <<"C05.Delivered", "write() transmitted nothing">>
+  ELSE IF Len(want.tx) = 0 THEN <<"C05.Delivered", "a loop-back write transmitted something">>
+  ELSE IF got[1].data # want.tx[1].data THEN <<"C11.FrameIsHdrPlusMsg", "the frame on air is not the caller's header (origin filled in) followed by the message">>
+  ELSE IF got[1].phys # want.tx[1].phys THEN <<"C04.HopParentOrChild", "first transmission goes to another physical address than the next hop's / the direct node's pipe 0">>
+  ELSE IF got[1].noack # want.tx[1].noack THEN
+       (IF v.direct = Auto THEN <<"C05.ReturnTrue", "a routed frame was sent without awaiting the radio acknowledgement">> ELSE <<"drift", "traffic_direct frame sent with an acknowledgement request">>)
+  ELSE IF v.direct = Auto /\ v.waited # want.waits THEN
+       <<"C13.WaitOnlyIfNeeded", IF v.waited THEN "write() waited for a NETWORK_ACK that nobody owes" ELSE "write() did not wait for the NETWORK_ACK of a routed ack-type frame">>
+  ELSE IF v.direct # Auto /\ v.waited THEN <<"drift", "traffic_direct write waited for a NETWORK_ACK">>
+  ELSE OK
+
 Clause(v) ==
+  IF v.k = "write" THEN WriteClause(v) ELSE
   LET short == Len(v.raw) < 8
       h == IF short THEN Hdr(0, 0, 0, 0, 0) ELSE UnpackHdr(v.raw)
       msg == IF short THEN <<>> ELSE SubSeq(v.raw, 9, Len(v.raw))
